@@ -137,11 +137,11 @@ theorem zpz_jacobian_det (E0 m d tau : ℝ) (hE : 0 < CoordSympl.en E0 m d)
 and at the exit (`k₂`; δ is unchanged by a drift, τ is not) — both of determinant −1 — the chain-rule product
 `K₂⁻¹ · jac · K₁` is `S₆`-symplectic, at every transportable particle -/
 theorem bmadx_drift_symplectic_cheetah (L : ℝ) (p : BP ℝ) (p0c m : ℝ) (k1 k2 : Matrix (Fin 2) (Fin 2) ℝ)
-    (h1 : k1.det = -1) (h2 : k2.det = -1) (hu : IsUnit (CoordSympl.lift k2).det) :
+    (h1 : k1.det = -1) (h2 : k2.det = -1) :
     ((CoordSympl.lift k2)⁻¹ * DriftSympl.jac L p p0c m * CoordSympl.lift k1)ᵀ * CoordSympl.S6c *
       ((CoordSympl.lift k2)⁻¹ * DriftSympl.jac L p p0c m * CoordSympl.lift k1) = CoordSympl.S6c :=
   CoordSympl.conj_symplectic _ _ _ (CoordSympl.lift_pullback k1 h1) (CoordSympl.lift_pullback k2 h2)
-    (DriftSympl.jacobian_symplectic L p p0c m) hu
+    (DriftSympl.jacobian_symplectic L p p0c m) (CoordSympl.lift_isUnit k2 h2)
 
 /-- non-vacuity: a particle 1 mrad / 2 mrad off axis with 3 % momentum deviation is transportable -/
 example : (0:ℝ) < 1 + 0.03 ∧ 0 < DriftSympl.sq 0.001 0.002 (0.03:ℝ) := by
